@@ -29,9 +29,10 @@ ASSUMPTIONS = [
 BUDGET = {"quick": 80, "thorough": 800}
 ROUNDS = {"thorough": 8}
 FLOORS = {"posterior_identities": {"quick": 3000, "thorough": 30000}, "off_posterior_recomputations": {"quick": 800, "thorough": 8000}, "api_cases": {"quick": 30, "thorough": 300}, "pairing_checks": {"quick": 3000, "thorough": 30000},
-          "families": 7, "objectives": 6, "driver_iterations": 20, "q_moved_to_posterior_after_use": {"quick": 200, "thorough": 2000}}
+          "families": 10, "objectives": 6, "driver_iterations": 20, "q_moved_to_posterior_after_use": {"quick": 200, "thorough": 2000}}
 
-FAMILIES = ["gamma-exponential", "gamma-poisson", "normal-normal", "beta-binomial", "mvn", "lognormal-exp", "normal-affine"]
+FAMILIES = ["gamma-exponential", "gamma-poisson", "normal-normal", "beta-binomial", "mvn", "lognormal-exp", "normal-affine",
+            "normal-normal-vector", "product-of-unequal-blocks", "lognormal-cumsumexp"]
 OBJECTIVES = ["ELBO", "ELBO-entropy", "ELBO-multi", "VR", "CUBO", "KLpq"]
 
 
@@ -53,6 +54,10 @@ def cases(tier, seed):
             out[-1]["blocks"] = True
         if fam in ("gamma-exponential", "gamma-poisson", "normal-normal") and i % 19 == 5:
             out[-1]["big_data"] = True
+        if fam == "product-of-unequal-blocks":
+            out[-1].update(qform="joint", off=False)
+        if fam == "normal-normal-vector" and obj != "ELBO-entropy":
+            out[-1]["qform"] = "joint"  # (a bare element-wise q of several components has no summed log density: the known mechanism, met on the scalar families)
         if fam == "mvn":
             out[-1]["q_param"] = ["covariance_matrix", "precision_matrix", "scale_tril", "scale_tril_transformed"][(i // len(FAMILIES)) % 4]
         if (i % 4 == 1 and fam != "mvn") or (fam == "mvn" and (i // (len(FAMILIES) * 4)) % 2 == 0):
@@ -139,6 +144,62 @@ def build(case):
         q = D("q", "torch.distributions.Normal", "z", loc=P("q.m", [qmz]), scale=P("q.s", [qsz]))
         ref = {"logq": lambda z: stats.norm.logpdf(z, qmz, qsz).sum(-1), "entropy": stats.norm.entropy(qmz, qsz)}
         return {"p": p, "q": q, "joint_terms": ["prior", "lik", "w"], "logZ": logZ, "ref": ref, "latent": "z", "qparam": "q.m"}
+    if fam == "normal-normal-vector":
+        # d independent normal-normal problems held in one vector parameter (element-wise prior, likelihood and q)
+        d = 3
+        m0, s0, sig = rng.normal(0, 1, d), gm.loguniform(rng, 0.3, 3, d), gm.loguniform(rng, 0.3, 3, d)
+        x = rng.normal(0, 1, d)
+        prec = 1 / s0**2 + 1 / sig**2
+        sn = np.sqrt(1 / prec)
+        mn = (m0 / s0**2 + x / sig**2) / prec
+        logZ = float(stats.norm.logpdf(x, m0, np.sqrt(s0**2 + sig**2)).sum())
+        qm, qs = mn + (0.3 * sn if off else 0.0), np.array([jitter(v) for v in sn])
+        p = [D("prior", "torch.distributions.Normal", P("z", [0.1] * d), loc=P("m0", m0.tolist()), scale=P("s0", s0.tolist())),
+             D("lik", "torch.distributions.Normal", P("data", x.tolist()), loc="z", scale=P("sig", sig.tolist()))]
+        q = D("q", "torch.distributions.Normal", "z", loc=P("q.m", qm.tolist()), scale=P("q.s", qs.tolist()))
+        ref = {"logq": lambda z: stats.norm.logpdf(z, qm, qs).sum(-1), "entropy": float(stats.norm.entropy(qm, qs).sum())}
+        return {"p": p, "q": q, "joint_terms": ["prior", "lik"], "logZ": logZ, "ref": ref, "latent": "z", "qparam": "q.m"}
+    if fam == "product-of-unequal-blocks":
+        # two independent conjugate problems of different size (a scalar gamma-exponential one and a three-component normal-normal
+        # one); the variational distribution is a joint of two factors of unequal size
+        a, b = float(gm.loguniform(rng, 0.5, 5)), float(gm.loguniform(rng, 0.5, 5))
+        xe = rng.exponential(1.0, int(rng.integers(1, 10)))
+        an, bn = a + len(xe), b + xe.sum()
+        logZ1 = a * math.log(b) - special.gammaln(a) + special.gammaln(an) - an * math.log(bn)
+        d = 3
+        m0, s0, sig = rng.normal(0, 1, d), gm.loguniform(rng, 0.3, 3, d), gm.loguniform(rng, 0.3, 3, d)
+        x = rng.normal(0, 1, d)
+        prec = 1 / s0**2 + 1 / sig**2
+        sn, mn = np.sqrt(1 / prec), (m0 / s0**2 + x / sig**2) / prec
+        logZ2 = float(stats.norm.logpdf(x, m0, np.sqrt(s0**2 + sig**2)).sum())
+        qa, qb = jitter(an), jitter(bn)
+        qm, qs = mn + (0.3 * sn if off else 0.0), np.array([jitter(v) for v in sn])
+        p = [D("prior.l", "torch.distributions.Gamma", P("lam", [1.0]), concentration=a, rate=b), D("lik.l", "torch.distributions.Exponential", P("data.l", xe.tolist()), rate="lam"),
+             D("prior", "torch.distributions.Normal", P("z", [0.1] * d), loc=P("m0", m0.tolist()), scale=P("s0", s0.tolist())),
+             D("lik", "torch.distributions.Normal", P("data", x.tolist()), loc="z", scale=P("sig", sig.tolist()))]
+        q = [D("q.l", "torch.distributions.Gamma", "lam", concentration=P("q.a", [qa]), rate=P("q.b", [qb])),
+             D("q", "torch.distributions.Normal", "z", loc=P("q.m", qm.tolist()), scale=P("q.s", qs.tolist()))]
+        ref = {"logq": None, "entropy": float(stats.gamma.entropy(qa, scale=1 / qb) + stats.norm.entropy(qm, qs).sum())}
+        return {"p": p, "q": q, "joint_terms": ["prior.l", "lik.l", "prior", "lik"], "logZ": float(logZ1 + logZ2), "ref": ref, "latent": "z", "qparam": "q.m", "q_is_list": True}
+    if fam == "lognormal-cumsumexp":
+        # theta_i = exp(z_1 + ... + z_i) with independent log-normal priors and log-normal observations on theta; the joint over the
+        # unconstrained z carries the Jacobian term of the transform, the exact posterior of z is multivariate normal
+        d = int(rng.integers(2, 4))
+        m0, s0, sig = rng.normal(0, 0.5, d), gm.loguniform(rng, 0.4, 2, d), gm.loguniform(rng, 0.4, 2, d)
+        ld = rng.normal(0, 1, d)  # logarithms of the observations
+        prec = 1 / s0**2 + 1 / sig**2
+        sn, mn = np.sqrt(1 / prec), (m0 / s0**2 + ld / sig**2) / prec
+        logZ = float(stats.norm.logpdf(ld, m0, np.sqrt(s0**2 + sig**2)).sum())
+        Dm = np.eye(d) - np.eye(d, k=-1)  # z = Dm u with u = cumsum(z)
+        qm = Dm @ mn + (0.2 if off else 0.0)
+        qS = Dm @ np.diag(sn**2) @ Dm.T * (1.3 if off else 1.0)
+        theta = {"id": "theta", "type": "TransformedParameter", "transform": "torchtree.distributions.transforms.CumSumExpTransform", "x": P("z", [0.1] * d)}
+        u = {"id": "u", "type": "TransformedParameter", "transform": "torchtree.distributions.transforms.CumSumTransform", "x": "z"}
+        p = [D("prior", "torch.distributions.LogNormal", theta, loc=P("m0", m0.tolist()), scale=P("s0", s0.tolist())),
+             D("lik", "torch.distributions.Normal", P("data", ld.tolist()), loc=u, scale=P("sig", sig.tolist()))]
+        q = {"id": "q", "type": "MultivariateNormal", "x": "z", "parameters": {"loc": P("q.m", qm.tolist()), "covariance_matrix": P("q.S", qS.tolist())}}
+        ref = {"logq": lambda z: stats.multivariate_normal.logpdf(z, qm, qS), "entropy": stats.multivariate_normal.entropy(qm, qS)}
+        return {"p": p, "q": q, "joint_terms": ["prior", "lik", "theta"], "logZ": logZ, "ref": ref, "latent": "z", "qparam": "q.m", "tril": np.linalg.cholesky(qS)}
     if fam == "beta-binomial":
         a, b = float(gm.loguniform(rng, 0.5, 5)), float(gm.loguniform(rng, 0.5, 5))
         N = int(rng.integers(1, 30))
@@ -297,12 +358,15 @@ def run_case(case):
     fam, o = case["family"], case["objective"]
     C = {"posterior_identities": 0, "off_posterior_recomputations": 0, "pairing_checks": 0, "declined_shapes": 0, "driver_iterations": 0, "families": [fam], "objectives": [o] if o != "driver" else []}
     b = build(case)
-    var = b["q"] if case["qform"] == "bare" else {"id": "var", "type": "JointDistributionModel", "distributions": [b["q"]]}
-    if case["qform"] == "bare":
+    if b.get("q_is_list"):
+        var = {"id": "var", "type": "JointDistributionModel", "distributions": list(b["q"])}
+    else:
+        var = b["q"] if case["qform"] == "bare" else {"id": "var", "type": "JointDistributionModel", "distributions": [b["q"]]}
+    if case["qform"] == "bare" and not b.get("q_is_list"):
         var = dict(b["q"])
         var["id"] = "var"
     final = {}
-    if case.get("q_history"):
+    if case.get("q_history") and not b.get("q_is_list"):
         # the variational parameters start at neutral values and reach the posterior only later, through the parameter interface
         import copy
 
@@ -412,7 +476,7 @@ def run_case(case):
         z = z_p.numpy()
         lp = rec["p"][-1][1].numpy()
         lp = lp.reshape(shape) if lp.size == int(np.prod(shape)) else lp
-        lq_ref = np.asarray(b["ref"]["logq"](z)).reshape(shape)
+        lq_ref = np.asarray(b["ref"]["logq"](z)).reshape(shape) if b["ref"]["logq"] is not None else np.zeros(shape)  # (None: judged at the posterior only)
         if o == "ELBO-entropy":
             # value = mean_s log p(x, z_s) + H(q)
             expect = [float(lp.mean() + b["ref"]["entropy"])]
